@@ -181,8 +181,9 @@ Proof. intros [z'|] z H; cbn in H; [|discriminate]. destruct (in_ity I16 z') eqn
 Lemma parse_record_sound : forall r e, parse_record F r = Some e -> entry_parsed_ok e /\ e_splits_concat e = r_splits_concat r.
 Proof.
   intros r e H. unfold parse_record in H. destruct bfacts_parts as (_ & _ & _ & _ & _ & _ & Nu & _).
-  destruct ((18 <=? r_ncols r) && r_strings_ok r && negb (r_surface_empty r) && r_syn_ok r && negb (r_surface_nul r && b_nul_err F)) eqn:C0; [|discriminate].
-  apply andb_true_iff in C0 as [_ C0]. rewrite Nu, andb_true_r in C0. apply negb_true_iff in C0.
+  destruct ((18 <=? r_ncols r) && r_strings_ok r && negb (r_surface_empty r) && r_syn_ok r && negb (r_surface_nul r && b_nul_err F)
+            && negb (r_surface_nul_raw r && b_nul_raw_err F)) eqn:C0; [|discriminate].
+  apply andb_true_iff in C0 as [C0 _]. apply andb_true_iff in C0 as [_ C0]. rewrite Nu, andb_true_r in C0. apply negb_true_iff in C0.
   destruct (num16 (r_left r)) as [l|] eqn:El; [|discriminate]. destruct (num16 (r_right r)) as [rr|] eqn:Er; [|discriminate].
   destruct (num16 (r_cost r)) as [c|] eqn:Ec; [|discriminate]. destruct (r_mode r) as [m|]; [|discriminate].
   destruct (parse_wid_list F (r_split_a r)) as [sa|] eqn:Ea; [|discriminate].
